@@ -7,6 +7,8 @@
 
 #![allow(clippy::type_complexity, clippy::too_many_arguments)]
 
+mod dists;
+mod modelcheck;
 mod num;
 mod obsbackend;
 mod prng;
@@ -102,10 +104,20 @@ fn main() {
             .location()
             .map(|l| format!("{}:{}", l.file(), l.line()))
             .unwrap_or_default();
+        if msg.contains("unsafe precondition") || msg.contains("cannot unwind") || msg.contains("misaligned pointer") || msg.contains("null pointer dereference") {
+            // about to abort (std's unsafe-precondition checks use non-unwinding panics):
+            // leave the evidence on stderr for the driver's abort classifier
+            eprintln!("NON-UNWINDING PANIC: {msg} @ {loc}");
+            eprintln!("{}", std::backtrace::Backtrace::force_capture());
+        }
         LAST_PANIC.with(|p| *p.borrow_mut() = format!("{msg} @ {loc}"));
     }));
 
     let mut run = Run::new(def.id, seed, shard, nshards, tier, flavour);
+    run.trace = trace;
+    if run.flavour != "miri" {
+        spawn_hang_watchdog(def.id, run.flavour.clone(), seed, shard, nshards);
+    }
     let (lo, hi) = match only {
         Some(k) => (k, k + 1),
         None => (from, ncases),
@@ -170,4 +182,50 @@ pub fn panic_sig(msg: &str) -> String {
     let file = file.rsplit("/src/").next().unwrap_or(file);
     let words: Vec<&str> = m.split_whitespace().take(6).collect();
     format!("panic/{}/{}", file, words.join("_"))
+}
+
+/// CPU seconds consumed by this process so far (Linux: utime+stime from /proc/self/stat).
+fn cpu_seconds() -> Option<f64> {
+    let s = std::fs::read_to_string("/proc/self/stat").ok()?;
+    let rest = s.rsplit_once(") ")?.1;
+    let f: Vec<&str> = rest.split_whitespace().collect();
+    let ut: f64 = f.get(11)?.parse().ok()?;
+    let st: f64 = f.get(12)?.parse().ok()?;
+    Some((ut + st) / 100.0)
+}
+
+/// A single case normally takes micro- to milliseconds. If one case burns more than
+/// HANG_CPU_SECONDS of *CPU time* (not wall-clock: robust on a loaded machine) it is reported
+/// as non-termination and the process exits with status 3; the driver restarts after it.
+const HANG_CPU_SECONDS: f64 = 60.0;
+
+fn spawn_hang_watchdog(prop: &'static str, flavour: String, seed: u64, shard: u64, nshards: u64) {
+    use std::sync::atomic::Ordering;
+    std::thread::spawn(move || {
+        let mut last_index = u64::MAX;
+        let mut last_hb = 0u64;
+        let mut cpu_at_change = cpu_seconds().unwrap_or(0.0);
+        loop {
+            std::thread::sleep(std::time::Duration::from_millis(500));
+            let idx = report::CUR_INDEX.load(Ordering::SeqCst);
+            let hb = report::HEARTBEAT.load(Ordering::Relaxed);
+            let Some(cpu) = cpu_seconds() else { return };
+            if idx != last_index || hb != last_hb {
+                last_hb = hb;
+                last_index = idx;
+                cpu_at_change = cpu;
+                continue;
+            }
+            if cpu - cpu_at_change > HANG_CPU_SECONDS {
+                let note = report::LAST_NOTE.lock().map(|g| g.clone()).unwrap_or_default();
+                let idx_s = if idx == u64::MAX { "\"extra\"".to_string() } else { idx.to_string() };
+                println!(
+                    "{{\"type\":\"violation\",\"prop\":\"{}\",\"flavour\":\"{}\",\"seed\":{},\"shard\":{},\"nshards\":{},\"index\":{},\"kind\":\"hang\",\"sig\":\"hang/{}\",\"detail\":\"case consumed more than {} CPU seconds without finishing (non-termination); last note: {}\"}}",
+                    prop, report::json_escape(&flavour), seed, shard, nshards, idx_s, prop, HANG_CPU_SECONDS, report::json_escape(&note)
+                );
+                let _ = std::io::stdout().flush();
+                std::process::exit(3);
+            }
+        }
+    });
 }
